@@ -202,3 +202,21 @@ pub fn spawn_shell_task(
 pub fn workspace_lock_free(engine: &crate::SessionEngine) -> bool {
     engine.verif_workspace_lock().verif_free()
 }
+
+/// The real `compile_context_bundle_for_run` (properties C04 / C08) for a thread and triggering
+/// message: (selection decision payload, bundle artifact id, from_seq, from_message_id).
+pub fn compile_context_for_run(
+    store: &ContinuityStore,
+    event_log: &rip_log::EventLog,
+    snapshot_dir: &std::path::Path,
+    run: &crate::continuities::ContinuityRunLink,
+    run_session_id: &str,
+) -> Result<(serde_json::Value, String, u64, Option<String>), String> {
+    crate::session::verif_hooks::compile_context_for_run(
+        store,
+        event_log,
+        snapshot_dir,
+        run,
+        run_session_id,
+    )
+}
